@@ -266,6 +266,9 @@ func (rc *RunCtx) execFamily(u *ExecUniverse, prefixes ...string) {
 			switch {
 			case strings.HasPrefix(cl, "skip."):
 				skipped++
+				if os.Getenv("VERIF_SHOWSKIP") != "" && skipped <= 40 {
+					fmt.Printf("  SKIP %s %s\n", cl, u.human(u.Cases[id-1]))
+				}
 				continue
 			case strings.HasPrefix(cl, "bag."):
 				bag++
